@@ -236,6 +236,27 @@ Definition label_ok_b (label : list ascii) : bool :=
 Definition name_ok_b (p : string * string) : bool := label_ok_b (chars (fst p)) && no_space (chars (snd p)).
 Definition unit_opt (u : list ascii) : option (list ascii) := match u with [] => None | _ => Some u end.
 
+(* ---- the legacy program src/hip_ra/HIP_RA.py (USGS volumetric method) ---- *)
+(* Its report has the same line layout; its formulas share with HIP-RA-X only: the volume, the fluid mass (all of the
+   pore fluid: recoverable factor 1), the heat of the whole volume rhc*(Tres-Trej)*V (HIP-RA-X: rock fraction only,
+   times the recoverable-heat factor) and the specific exergy.  Recovery factor, available and producible heat and the
+   electricity are different formulas (see the evidence notes) and are not claimed. *)
+Definition legacy_rows : list (nat * fkind) :=
+  [(0, KFix); (1, KFix); (2, KSci); (3, KSci); (4, KFix); (5, KSci); (6, KPct); (7, KSci); (8, KSci); (9, KFix)]%nat.
+Definition legacy_common (W : water) (i : hin) : list Q :=
+  [c_volume i; c_volume i * (i_por i / 100) * i_fdens i; c_volume i * (i_rhc i * (i_Tres i - i_Trej i)); c_exergy W i].
+(* [Tres; Trej; por; area; thick; rhc; density used; h_res; h_rej; s_res; s_rej] -> [V; mWH; qR; e] *)
+Definition run_legacy_common (a : list Q) : res :=
+  match a with
+  | [Tres; Trej; por; area; thick; rhc; fdens; h_res; h_rej; s_res; s_rej] =>
+      Vals (legacy_common (water_of_data Tres 0 0 h_res h_rej s_res s_rej)
+        {| i_Tres := Tres; i_Trej := Trej; i_por := por; i_area := area; i_thick := thick; i_life := 1;
+           i_rhc := rhc; i_fhc := 0; i_fdens := fdens; i_rdens := 0; i_rff := 1; i_rrh := 1;
+           i_depth_given := true; i_depth := 0; i_pres_given := true; i_pres := 0;
+           i_fdens_min := 0; i_fhc_min := 0 |})
+  | _ => Err E_ARGS
+  end.
+
 (* ---- comparisons used by the correspondence ---- *)
 Definition fval_of (neg_zero : bool) (q : Q) : fval := if neg_zero then NegZero else Fin q.
 Definition opt_chars_eqb (a b : option (list ascii)) : bool :=
